@@ -8,7 +8,7 @@ use refimpl::wire::{self, DataBody, FpUpdate, InputEvent, Rect};
 use serde::{Deserialize, Serialize};
 
 pub const LEVEL: &str = "exploration";
-pub const RULE: &str = "case = history of 1..40 steps over {pointer(x, y, button, down), key(code, down), unsendable event (RdpEvent::Bitmap), server traffic (fast-path bitmap, set-error-info)} submitted through write or try_write on an activated session with a generated user id / share id. Oracle: the reference server's strictly decoded list of slow-path input PDUs equals the submitted sendable events one to one and in order: one PDU per event, numEvents = 1, message type 0x8001 / 0x0004, exact x / y / scancode, button flags Left/Right/Middle = 0x1000/0x2000/0x4000 with DOWN (0x8000) iff down, no button = MOVE (0x0800) without button bits, RELEASE (0x8000) iff key up; MCS initiator / channel / share id as negotiated; unsendable kinds return Err and write zero bytes. button-matrix enumerates all 8 button x state combinations at boundary coordinates; all-values sends every scancode 0..=0xFFFF (press and release) and every value 0..=0xFFFF as x and as y coordinate (256 values per session, write and try_write mixed); after-server-updates sends every fast-path update code 0..15 (pointer position, hidden / default pointer, cached pointer ..., alone or batched after a bitmap) and then events that echo its contents (a move to exactly the position the server set, the same values as scancodes); generated histories do the same with probability; long-histories are sessions of 3000 events with exact repetitions, interleaved server traffic and refused events; generated histories repeat the previous event 1..3 times with probability 1/6. Non-trivial = history with >= 2 sendable events; distinct by hash of the case.";
+pub const RULE: &str = "case = history of 1..40 steps over {pointer(x, y, button, down), key(code, down), unsendable event (RdpEvent::Bitmap), server traffic (fast-path bitmap, set-error-info)} submitted through write or try_write on an activated session with a generated user id / share id. Oracle: the reference server's strictly decoded list of slow-path input PDUs equals the submitted sendable events one to one and in order: one PDU per event, numEvents = 1, message type 0x8001 / 0x0004, exact x / y / scancode, button flags Left/Right/Middle = 0x1000/0x2000/0x4000 with DOWN (0x8000) iff down, no button = MOVE (0x0800) without button bits, RELEASE (0x8000) iff key up; MCS initiator / channel / share id as negotiated; unsendable kinds return Err and write zero bytes. button-matrix enumerates all 8 button x state combinations at boundary coordinates, and input before / after 1..3 reactivations with fresh share ids (the input PDUs must carry the share id of the latest demand-active) against 8 server variants (reported RDP version); all-values sends every scancode 0..=0xFFFF (press and release) and every value 0..=0xFFFF as x and as y coordinate (256 values per session, write and try_write mixed); after-server-updates sends every fast-path update code 0..15 (pointer position, hidden / default pointer, cached pointer ..., alone or batched after a bitmap) and then events that echo its contents (a move to exactly the position the server set, the same values as scancodes); generated histories do the same with probability; long-histories are sessions of 3000 events with exact repetitions, interleaved server traffic and refused events; generated histories repeat the previous event 1..3 times with probability 1/6. Non-trivial = history with >= 2 sendable events; distinct by hash of the case.";
 
 #[derive(Serialize, Deserialize, Hash, Clone, Debug)]
 pub enum Step {
@@ -19,6 +19,8 @@ pub enum Step {
     ServerError(u32),
     /// a fast-path update other than a bitmap (pointer position / hidden / default / cached / new, palette, synchronize ...), possibly batched after a bitmap
     ServerUpdate { code: u8, body: Vec<u8>, with_bitmap: bool },
+    /// deactivate-all, then a demand-active with this share id and the complete handshake: later input must carry the new id
+    Reactivate { share_id: u32 },
 }
 
 #[derive(Serialize, Deserialize, Hash, Clone, Debug)]
@@ -26,6 +28,9 @@ pub struct Case {
     pub steps: Vec<Step>,
     pub user_id: u16,
     pub share_id: u32,
+    /// server variant (reported RDP version), see c12::profile_of
+    #[serde(default)]
+    pub variant: u8,
 }
 
 fn button(b: u8) -> PointerButton {
@@ -47,7 +52,15 @@ pub fn run(c: &Case) -> Outcome {
     if c.steps.iter().any(|s| matches!(s, Step::Unsendable { .. })) {
         out.label("unsendable");
     }
-    let (mut conn, h) = match mem::activated_session(&ClientCfg::simple(), ServerProfile::simple(c.user_id, c.share_id)) {
+    let mut profile = ServerProfile::simple(c.user_id, c.share_id);
+    if c.variant != 0 {
+        out.label("other-server-profile");
+        profile.ccrsp = crate::props::c12::profile_of(c.variant).ccrsp;
+    }
+    if c.steps.iter().any(|s| matches!(s, Step::Reactivate { .. })) {
+        out.label("reactivation");
+    }
+    let (mut conn, h) = match mem::activated_session(&ClientCfg::simple(), profile) {
         Ok(x) => x,
         Err(e) => {
             out.fail("panic:HARNESS-FAULT c11 session setup", e);
@@ -56,7 +69,11 @@ pub fn run(c: &Case) -> Outcome {
     };
     let base_events = h.borrow().server.events.len();
     let mut want: Vec<&Step> = Vec::new();
+    // share id expected in the input PDU of each accepted event
+    let mut want_share: Vec<u32> = Vec::new();
+    let mut share_now = c.share_id;
     for (i, st) in c.steps.iter().enumerate() {
+        want_share.resize(want.len(), share_now);
         let before = h.borrow().transcript.len();
         match st {
             Step::Pointer { x, y, button: b, down, lenient } => {
@@ -108,6 +125,46 @@ pub fn run(c: &Case) -> Outcome {
                     return out;
                 }
             }
+            Step::Reactivate { share_id } => {
+                {
+                    let mut s = h.borrow_mut();
+                    // what the client wrote so far belongs to the old share: let the server read it first
+                    s.pump();
+                    let su = s.server.profile.server_user;
+                    let dea = s.server.wrap(&wire::deactivate_all(share_now, su));
+                    let d = refimpl::wire::DemandActive { share_id: *share_id, source: b"RDP\0".to_vec(), caps: wire::sample_server_caps(), session_id: 0 };
+                    let da = s.server.pdu_demand_active(&d);
+                    s.server.phase = refimpl::server::Phase::Activation(0);
+                    s.push(&dea.bytes);
+                    s.push(&da.bytes);
+                }
+                for _ in 0..16 {
+                    let idle = {
+                        let s = h.borrow();
+                        s.to_client.is_empty() && s.pending.is_empty()
+                    };
+                    if idle {
+                        break;
+                    }
+                    let (r, _) = call(|| conn.client.read(|_| ()));
+                    match r {
+                        Res::Ok(()) => {}
+                        Res::Err(e) => {
+                            out.fail("input:reactivation-read-error", format!("step #{}: read during the reactivation failed: {}", i, e));
+                            return out;
+                        }
+                        Res::Panic(p) => {
+                            fail_panic(&mut out, "RdpClient::read", &p);
+                            return out;
+                        }
+                    }
+                }
+                if h.borrow().server.phase != refimpl::server::Phase::Active {
+                    out.fail("input:reactivation-incomplete", format!("step #{}: the reactivation did not complete: server phase {:?}, notes {:?}", i, h.borrow().server.phase, h.borrow().server.violations));
+                    return out;
+                }
+                share_now = *share_id;
+            }
             Step::ServerBitmap | Step::ServerError(_) | Step::ServerUpdate { .. } => {
                 let frame = match st {
                     Step::ServerUpdate { code, body, with_bitmap } => {
@@ -153,22 +210,29 @@ pub fn run(c: &Case) -> Outcome {
         out.fail(format!("input:server-violation:{}", crate::props::c03::norm(v)), v.clone());
         return out;
     }
-    let got: Vec<&ClientEvent> = s.server.events[base_events..].iter().map(|e| &e.0).collect();
-    compare_inputs(&mut out, &got, &want, c.share_id);
+    want_share.resize(want.len(), share_now);
+    // the finalization PDUs of reactivations are the activation's business (C03/C12); inputs are compared here
+    let got: Vec<&ClientEvent> = s.server.events[base_events..].iter().map(|e| &e.0).filter(|e| !c.steps.iter().any(|s| matches!(s, Step::Reactivate { .. })) || matches!(e, ClientEvent::Data { body: DataBody::Input(_), .. })).collect();
+    compare_inputs_shares(&mut out, &got, &want, &want_share);
     out
 }
 
 /// one-to-one comparison of the decoded input PDUs with the submitted sendable events
 pub fn compare_inputs(out: &mut Outcome, got: &[&ClientEvent], want: &[&Step], share: u32) {
+    compare_inputs_shares(out, got, want, &vec![share; want.len()])
+}
+
+pub fn compare_inputs_shares(out: &mut Outcome, got: &[&ClientEvent], want: &[&Step], shares: &[u32]) {
     struct C {
         share_id: u32,
     }
-    let c = C { share_id: share };
+    let mut c = C { share_id: 0 };
     if got.len() != want.len() {
         out.fail(if got.len() < want.len() { "input:count:missing" } else { "input:count:extra" }, format!("{} input PDUs decoded for {} submitted events", got.len(), want.len()));
         return;
     }
     for (i, (g, w)) in got.iter().zip(want.iter()).enumerate() {
+        c.share_id = shares.get(i).copied().unwrap_or(0);
         let evs = match g {
             ClientEvent::Data { body: DataBody::Input(evs), share_id, .. } => {
                 if *share_id != c.share_id {
@@ -281,6 +345,8 @@ pub fn run_tls(c: &Case) -> Outcome {
 }
 
 pub fn decode(s: &mut Src) -> Case {
+    let reactivate = s.chance(48);
+    let variant = if s.chance(64) { s.below(8) as u8 } else { 0 };
     let n = 1 + s.below(40);
     let mut steps: Vec<Step> = Vec::new();
     for _ in 0..n {
@@ -331,7 +397,15 @@ pub fn decode(s: &mut Src) -> Case {
             _ => Step::Pointer { x: s.b16(), y: s.b16(), button: s.below(4) as u8, down: s.bool(), lenient: s.chance(64) },
         });
     }
-    Case { steps, user_id: crate::gen::gen_user_id(s), share_id: s.b32() }
+    let mut steps = steps;
+    let user_id = crate::gen::gen_user_id(s);
+    let share_id = s.b32();
+    if reactivate {
+        // a reactivation somewhere in the middle, with a different share id
+        let pos = s.below(steps.len() + 1);
+        steps.insert(pos, Step::Reactivate { share_id: share_id ^ s.b32().max(1) });
+    }
+    Case { steps, user_id, share_id, variant }
 }
 
 /// every scancode 0..=0xFFFF pressed and released, every value 0..=0xFFFF as x and as y coordinate with every
@@ -350,7 +424,7 @@ fn all_values(part: usize, parts: usize) -> impl Iterator<Item = Case> {
                 steps.push(Step::Pointer { x: v.rotate_left(5), y: v, button: ((k / 8) % 4) as u8, down: (k / 2) % 2 == 0, lenient: k % 7 == 0 });
             }
         }
-        Case { steps, user_id: 1004 + (i as u16 % 3), share_id: 0x000103EA ^ (i as u32) << 8 }
+        Case { steps, user_id: 1004 + (i as u16 % 3), share_id: 0x000103EA ^ (i as u32) << 8, variant: (i % 8) as u8 }
     })
 }
 
@@ -379,7 +453,7 @@ fn after_server_updates() -> Vec<Case> {
                     steps.extend(probes(lenient));
                     steps.push(Step::ServerUpdate { code, body: body[..2].to_vec(), with_bitmap });
                     steps.extend(probes(lenient));
-                    v.push(Case { steps, user_id: 1004, share_id: 0x000103EA });
+                    v.push(Case { steps, user_id: 1004, share_id: 0x000103EA, variant: 0 });
                 }
             }
         }
@@ -409,17 +483,32 @@ fn long_histories() -> Vec<Case> {
             };
             steps.push(st);
         }
-        v.push(Case { steps, user_id: 1004, share_id: 0x000103EA });
+        v.push(Case { steps, user_id: 1004, share_id: 0x000103EA, variant: 0 });
     }
     v
 }
 
 fn matrix() -> Vec<Case> {
     let mut v = Vec::new();
+    // input before and after one, two and three reactivations with fresh share ids, against every server variant
+    for variant in 0..8u8 {
+        for rounds in 1..=3u32 {
+            let mut steps = Vec::new();
+            for r in 0..=rounds {
+                steps.push(Step::Key { code: 30 + r as u16, down: true, lenient: false });
+                steps.push(Step::Key { code: 30 + r as u16, down: false, lenient: r % 2 == 1 });
+                steps.push(Step::Pointer { x: 5 * r as u16, y: 7, button: (r % 4) as u8, down: r % 2 == 0, lenient: false });
+                if r < rounds {
+                    steps.push(Step::Reactivate { share_id: 0x0002_03EA + 0x1_0000 * r + variant as u32 });
+                }
+            }
+            v.push(Case { steps, user_id: 1004, share_id: 0x000103EA, variant });
+        }
+    }
     for b in 0..4u8 {
         for down in [false, true] {
             for (x, y) in [(0u16, 0u16), (65535, 65535), (1, 2), (0x8000, 0x7FFF)] {
-                v.push(Case { steps: vec![Step::Pointer { x, y, button: b, down, lenient: false }, Step::Key { code: x, down, lenient: false }, Step::Pointer { x: y, y: x, button: b, down: !down, lenient: true }], user_id: 1004, share_id: 0x000103EA });
+                v.push(Case { steps: vec![Step::Pointer { x, y, button: b, down, lenient: false }, Step::Key { code: x, down, lenient: false }, Step::Pointer { x: y, y: x, button: b, down: !down, lenient: true }], user_id: 1004, share_id: 0x000103EA, variant: 0 });
             }
         }
     }
@@ -438,4 +527,6 @@ pub fn check(rep: &Report) {
     rep.random("tls", rep.tier.n(300, 10_000), 200, decode, run_tls);
     rep.require("histories", "interleaved-server-traffic", 1000);
     rep.require("histories", "unsendable", 1000);
+    rep.require("histories", "reactivation", 1000);
+    rep.require("histories", "other-server-profile", 1000);
 }
